@@ -1,5 +1,6 @@
 (* Executable judge for C17 correspondence cases. *)
-From PV Require Import Base.Bytes Models.Partials Run.Verdict.
+From PV Require Import Base.Bytes Run.Verdict.
+From PV Require Export Models.Partials.   (* case terms name the constructors of [call] *)
 
 Record case17 := {
   files : list bytes;   (* the file tree: every file <name>.ast.json below template/page, as <name> *)
@@ -8,6 +9,9 @@ Record case17 := {
   req   : list bytes;
   go    : option (list (bytes * bytes)); (* observed RenderPartials: None = (nil, err) *)
   go_nil_on_err : bool;                  (* on error the returned map was nil *)
+  dbg   : bool;                          (* the engine under test runs in debug mode *)
+  hist  : list call;                     (* the calls the engine under test received before the judged one
+                                            (CLoad f = LoadTemplates(f), directly or through the DebugController) *)
 }.
 
 Definition render_of (c : case17) (n : bytes) : option bytes :=
@@ -28,7 +32,8 @@ Definition res_eqb (r r' : option (list (bytes * bytes))) : bool :=
 
 (* the property itself, executable, independent of the model.  A requested partial EXISTS
    iff the literal name T.partial/p is a file of the tree (plain set membership, nothing is
-   resolved); its content alone is what the reference engine's Render gave for that name. *)
+   resolved); its content alone is what Render gave for that name on a reference engine in a
+   process of its own that did nothing else. *)
 Definition oracle17 (c : case17) : bool :=
   let r := render_of c in
   if forallb (fun p => partial_exists (files c) (tname c) p &&
@@ -41,14 +46,27 @@ Definition oracle17 (c : case17) : bool :=
        end
   else match go c with None => go_nil_on_err c | Some _ => false end.
 
-(* M: the loop of RenderPartials over Render = exact lookup in the tree, then the content the
-   reference engine gave for that name *)
-Definition model17 (c : case17) : option (list (bytes * bytes)) :=
-  render_partials (render_lookup (files c) (render_of c)) (tname c) (req c).
+(* M: the loop of RenderPartials over the engine with its template set as state: the history
+   of the engine under test (loads, filtered reloads, renders, partial requests) from a fresh
+   engine, then the judged request; a template that is found gives the content the reference
+   gave for that name.  By C17_reloads_harmless / C17_fresh_engine_history / C17_debug_engine
+   this is the pure loop over the exact lookup in the tree on every in-domain case. *)
+Definition eng17 (c : case17) := render_eng (files c) (render_of c) (dbg c).
 
-(* diagnostic: the requested names with "is a file of the tree" *)
+Definition model17 (c : case17) : option (list (bytes * bytes)) :=
+  snd (render_partialsS tset (eng17 c)
+         (after tset (eng17 c) (load (files c)) None (hist c)) (tname c) (req c)).
+
+(* domain: on a production-mode engine that never loaded, the first call that touches the
+   template set is not a filtered load (see C17_filtered_first_refuted) *)
+Definition dom17 (c : case17) : bool := dbg c || hist_ok (hist c).
+
+(* diagnostic: the requested names with "is a file of the tree", and the template set of the
+   model engine when the judged call arrives *)
 Definition exists17 (c : case17) : list (bytes * bool) :=
   map (fun p => (partial_name (tname c) p, partial_exists (files c) (tname c) p)) (req c).
 
+Definition state17 (c : case17) : tset := after tset (eng17 c) (load (files c)) None (hist c).
+
 Definition judge (c : case17) : nat :=
-  verdict true (oracle17 c) (res_eqb (model17 c) (go c)).
+  verdict (dom17 c) (oracle17 c) (res_eqb (model17 c) (go c)).
